@@ -294,6 +294,28 @@ def cli_cases(tier):
             for fmt in ('text', 'json'):
                 out.append((family, pol, peer, fmt))
     out += multi_cert_cases()
+    out += probe_fault_cases()
+    return out
+
+
+def probe_fault_cases():
+    """a fault confined to one host-key probe connection (wrong message type / unparsable blob in the reply to the first probe): the key is
+    measured through a later probe, so the verdict is the fault-free one"""
+    out = []
+    fam = ['ssh-rsa', 'rsa-sha2-256', 'rsa-sha2-512']
+    for keys in (fam, fam[1:], ['rsa-sha2-512', 'ssh-rsa', 'ssh-ed25519']):
+        for bits in (2048, 4096):
+            hks = {k: {'hostkey_size': bits, 'ca_key_type': '', 'ca_key_size': 0} for k in keys if k in fam}
+            if 'ssh-ed25519' in keys:
+                hks['ssh-ed25519'] = {'hostkey_size': 256, 'ca_key_type': '', 'ca_key_size': 0}
+            peer = dict(BASE_PEER, key=list(keys), host_keys=hks)
+            for want in (2048, 4096):
+                for larger in (False, True):
+                    pol = {'larger': larger, 'hostkey_sizes': {k: {'hostkey_size': want if k in fam else 256, 'ca_key_type': '', 'ca_key_size': 0} for k in hks}}
+                    for fault in (('type', 1), ('len', 2, 'huge31')):      # replies the tool rejects as unparsable (it then asks again under a sibling name)
+                        for conn in (1, 2):
+                            for fmt in ('text', 'json'):
+                                out.append(('probe-fault', pol, dict(peer, _faults={('srv', conn, 2): fault}), fmt))
     return out
 
 
@@ -347,7 +369,8 @@ def work_cli(chunk, st):
             pass
         srv = P.Server(kex=kexl, key=peer['key'], enc=peer['ciphers'], mac=peer['macs'], banner=peer['banner'].encode(),
                        comp=peer['compressions'], host_keys=hk, gex=gex)
-        res = H.audit(srv, opts=['-n', '--skip-rate-test', '-P', path] + (['-j'] if fmt == 'json' else []))
+        res = H.audit(srv, opts=['-n', '--skip-rate-test', '-P', path] + (['-j'] if fmt == 'json' else []), faults=peer.get('_faults'))
+        peer = {k: v for k, v in peer.items() if k != '_faults'}
         # what the tool really measured is unknown to us for sizes, so take the model's verdict from the requested peer
         refp = ref_peer(peer)
         if peer['host_keys'] and not any(k in ('curve25519-sha256', 'diffie-hellman-group16-sha512') or k.startswith('diffie-hellman-group-exchange') for k in kexl):
